@@ -144,6 +144,15 @@ CLAIMED = {
         "design_ref": "DESIGN.md §8 C13",
         "technique": "Lean 4 theorems (flag constancy by mutual induction, env-free remote matching, simple-command equality) + T1 correspondence in config mode (remote lookups computed by the model) + exec-extraction models + metamorphic search",
     },
+    "C18": {
+        "text": "Proof (Lean 4): over a model of the process state T0 finds in the source (the lru_cache around _load_handler, MODE, _log_config, _log_disabled) and of an analysis as an arbitrary adaptive lookup program: the cache is transparent "
+        "(lru_transparent: value = loader's value, invariant kept, size <= capacity, for every capacity and key sequence), an analysis computes against any sound cache what it computes against the loader (analysis_cache_free, by induction on the program), "
+        "and by induction over histories the stdout and logging effect of an invocation after ANY sequence of earlier invocations (any commands, configurations, hosts, failing log sinks, more handlers than the cache holds) equal those of a fresh process "
+        "(history_free, repeat_same, cache_bounded). T0 obligations: the extracted inventory of mutable process state equals what the model accounts for (inventory_covered), MODE is assigned before it is read and nowhere else, configure_logging "
+        "re-arms logging first (shape_facts). Tie: LRU model vs functools.lru_cache and vs the real _load_handler statistics; long random histories in one interpreter vs a fresh process per query. What an analysis computes from its inputs is the analyzer model of C01-C08 (here a parameter).",
+        "design_ref": "DESIGN.md §8 C18",
+        "technique": "Lean 4 theorems (LRU invariant, free-monad lookup programs, induction over histories) + T0 mutable-state inventory obligation + LRU correspondence + fresh-vs-history differential search",
+    },
 }
 
 PENDING_REASON = "check not built yet in this round (DESIGN.md §10 build order); no technique other than Lean proof + correspondence is substituted"
